@@ -344,6 +344,12 @@ class SG:
         self.nstmts += 1
         if d <= 0:
             opts = [self.xi(1, M.L_COMMA) + ";", ";", "%s = %s;" % (self.W(self.lv_int(1), M.L_UNARY), self.xi(2))]
+            # a grouping probe: one operator twice, nested on the right - the
+            # parentheses carry the meaning (also for + * & | ^, whose regrouping
+            # changes the order of evaluation the compiler emits)
+            op = c.choice(["+", "-", "*", "/", "%", "<<", ">>", "&", "|", "^", "&&", "||", "==", "!=", "<", ">", "<=", ">="])
+            x, y, z = [self.W(c.choice([self.lv_int(0), self.ilit()]), M.L_CAST) for _ in range(3)]
+            opts.append("%s = %s %s (%s %s %s);" % (self.W(self.lv_int(0), M.L_UNARY), x, op, y, op, z))
             if self.loop or self.sw:
                 opts.append("break;")
             if self.loop:
@@ -481,7 +487,11 @@ class SG:
             self.consts.add(b)
         body = self.block(3)
         self.scopes.pop()
-        return head + " " + body[:-1] + " return 0; }"
+        # every function ends in a grouping probe over the globals (see stmt())
+        op = c.choice(["+", "-", "*", "/", "%", "<<", ">>", "&", "|", "^", "&&", "||", "==", "!=", "<", ">", "<=", ">="])
+        x, y, z = [c.choice(["gi", "ga[1]", "gs.m", "3", "*gp", "7", "gu.i"]) for _ in range(3)]
+        probe = "gi = %s %s (%s %s %s);" % (x, op, y, op, z)
+        return head + " " + body[:-1] + " " + probe + " return 0; }"
 
     def toplevel(self):
         c = self.c
